@@ -125,6 +125,27 @@ class C18:
                 if rng.random() < 0.5:
                     b.emit('bg_correct', {'raw': img, 'bg': img, 'df': None},
                            tags={'k': 'bg_self'})
+                c2 = rng.random()
+                if c2 < 0.35:
+                    # the user refreshes the background (or dark field) in
+                    # place and corrects again with the same objects
+                    tgt = bg if (df is None or rng.random() < 0.6) else df
+                    b.emit('mutate_image', {
+                        'det': tgt, 'seed': rng.randrange(2 ** 31),
+                        'lo': 1.0 if tgt is bg else 0.01,
+                        'hi': 3.0 if tgt is bg else 0.4},
+                        tags={'k': 'refresh-in-place'})
+                    b.emit('bg_correct', {'raw': img, 'bg': bg, 'df': df},
+                           tags={'k': 'bg_correct'})
+                elif c2 < 0.6:
+                    # the user drops the background and loads a new one
+                    b.emit('forget', {'obj': bg}, tags={'k': 'forget'})
+                    b.live['bg'].pop()
+                    bg2 = b.emit('pos_image', dict(
+                        base, seed=rng.randrange(2 ** 31), lo=1.0, hi=3.0),
+                        store='bg')
+                    b.emit('bg_correct', {'raw': img, 'bg': bg2, 'df': df},
+                           tags={'k': 'bg_correct'})
             elif c < 0.6:
                 # dead pixels
                 zs = []
@@ -330,13 +351,25 @@ class C18:
 
     # ------------------------------------------------------------ tools
     def _src(self, ex, rec, arg='det'):
+        """Current content of the object an argument refers to: what its
+        constructor returned, or what the last in-place refresh before this
+        operation left in it."""
         h = rec['rargs'].get(arg)
         if not isinstance(h, dict) or 'ref' not in h:
             return None
         r = ex.records.get(h['ref'])
+        cur = None
         if r and r['outcome'] == 'ok' and O.is_da(r['payload']):
-            return r['payload']
-        return None
+            cur = r['payload']
+        for e in ex.run['events']:
+            if e.get('id') == rec['id']:
+                break
+            if e.get('op') == 'mutate_image':
+                r2 = ex.records.get(e['id'])
+                if r2 and r2['outcome'] == 'ok' and \
+                        r2['rargs']['det'].get('ref') == h['ref']:
+                    cur = r2['payload']
+        return cur
 
     def _meta_kept(self, ex, ev, src, out, what, allow_noise_from=None):
         from sim import canon
